@@ -22,6 +22,29 @@ Theorem C11_mex_empty : forall ls s,
 Proof. exact mex_drained. Qed.
 Print Assumptions C11_mex_empty.
 
+(* KNOWN FINDING c11:inbound-expired-record-kept.  The full clause -- "once all calls have
+   completed, failed or TIMED OUT the set is empty" -- would be
+     forall ls s, mrun ms_init ls = Some s ->
+       (forall h, 0 <= h < Z.of_nat (length (ms_objs s)) -> call_over ls h) ->
+       ms_exch s = [] /\ ms_expired s = []
+   where call_over also accepts a call whose watcher expired it.  It is false for the code as
+   it is (witness: a new inbound exchange 5 whose watcher runs expireExchange and whose
+   exchange is never shut down: Blackhole, or a handler returning without a response).
+   C11_mex_empty above is the proved part: it needs every exchange to have shut down. *)
+Theorem C11_mex_empty_after_timeouts_refuted :
+  exists ls s, mrun ms_init ls = Some s /\
+    (forall h, 0 <= h < Z.of_nat (length (ms_objs s)) -> call_over ls h) /\
+    ms_expired s <> [].
+Proof. exact mex_drained_after_timeouts_refuted. Qed.
+Print Assumptions C11_mex_empty_after_timeouts_refuted.
+
+Theorem C11_mex_empty_after_timeouts_partial : forall ls s,
+  mrun ms_init ls = Some s ->
+  (forall o, In o (ms_objs s) -> mo_pc o = 2) ->     (* missing: calls that only timed out *)
+  ms_exch s = [] /\ ms_expired s = [].
+Proof. exact mex_drained_prop. Qed.
+Print Assumptions C11_mex_empty_after_timeouts_partial.
+
 (* At every moment every id recorded in exchanges or expiredExchanges belongs to an exchange
    object that has not yet finished shutting down (nothing is recorded for a finished call). *)
 Theorem C11_mex_entries_owned : forall ls s id,
@@ -89,15 +112,25 @@ Print Assumptions C11_ledger_current.
 
 (* For every history of one connection (closes, peer closing, write faults, read deadlines,
    read/write errors, health failures, calls starting and ending, relay calls, protocol and
-   connection errors): if the connection is Closed and none of its goroutines has an exit
-   step left, then reader, writer and health checker have exited and the library has closed
-   the socket. *)
-Theorem C11_conn_goroutines : forall health ls c,
+   connection errors, writes blocking and returning): if the connection is Closed, its writer
+   is not held inside a Write, and none of its goroutines has an exit step left, then reader,
+   writer and health checker have exited and the library has closed the socket. *)
+(* full statement (false, see the refutation below): the same without [t_wr c <> 3] *)
+Theorem C11_conn_goroutines_partial : forall health ls c,
   trun true (tconn_init health) ls = Some c ->
   t_state c = c_connectionClosed -> tconn_settled c = true ->
+  t_wr c <> 3 ->          (* missing: a frame writer held inside Write by a peer that does not read *)
   tconn_exited c = true /\ t_sock c = true.
 Proof. exact conn_goroutines_exit. Qed.
-Print Assumptions C11_conn_goroutines.
+Print Assumptions C11_conn_goroutines_partial.
+
+(* KNOWN FINDING c11:stalled-writer-outlives-close: no write deadline is ever set, so a writer
+   blocked in Write never notices that the connection was closed. *)
+Theorem C11_conn_goroutines_stalled_writer_refuted :
+  exists ls c, trun true (tconn_init false) ls = Some c /\
+    t_state c = c_connectionClosed /\ tconn_settled c = true /\ t_wr c = 3 /\ t_rd c = 0 /\ t_sock c = false.
+Proof. exact conn_goroutines_exit_stalled_writer_refuted. Qed.
+Print Assumptions C11_conn_goroutines_stalled_writer_refuted.
 
 (* The same statement is FALSE for the writer as it was before the repair (fixw = false):
    witness write fault, write error, deferred <-stopCh. *)
@@ -109,16 +142,19 @@ Print Assumptions C11_conn_goroutines_unrepaired_refuted.
 
 (* For every history of a channel (listening or not, with or without idle sweep; any number
    of connections, calls and inbound handshakes, any interleaving of their steps): when the
-   channel and all its connections are Closed, every call context is done and its handler has
-   returned, every init deadline has passed, and no goroutine has an exit step left, then every
+   channel and all its connections are Closed and no writer is held inside a Write, every call
+   context is done and its handler has returned, every init deadline has passed, and no
+   goroutine has an exit step left, then every
    goroutine of every ledger entry has exited and every socket was closed by the library. *)
-Theorem C11_goroutines : forall listening sweep ls w,
+(* full statement: the same with world_quiescent not asking that no writer is held inside a
+   Write; false by C11_conn_goroutines_stalled_writer_refuted *)
+Theorem C11_goroutines_partial : forall listening sweep ls w,
   wrun true (world_init listening sweep) ls = Some w ->
   world_quiescent w = true -> world_settled w = true ->
   (forall e, In e ledger -> kind_exited (g_kind e) w = true) /\
   forallb t_sock (w_conns w) = true.
 Proof. exact world_goroutines_exit. Qed.
-Print Assumptions C11_goroutines.
+Print Assumptions C11_goroutines_partial.
 
 (* ---- non-vacuity: the hypotheses are met by concrete non-trivial histories ------------- *)
 
